@@ -161,6 +161,7 @@ class Recorder:
 
 OPS = ['synth', 'group', 'pargroup', 'set', 'setn', 'map', 'fill', 'run', 'release', 'move', 'free', 'buffer',
        'buffers', 'buffree', 'buffree-twice', 'freeall', 'bus', 'busfree', 'busset', 'sync', 'subbus']
+LAST_OPS = ['free', 'buffree', 'buffree-twice', 'busfree', 'freeall', 'move', 'release', 'synth', 'buffer']
 ACTIONS = ['addToHead', 'addToTail', 'addBefore', 'addAfter', 'addReplace']
 
 
@@ -210,7 +211,13 @@ def scenario(ctx, nops, first, use_bind):
                 for i in range(nops):
                     if ra is not None and i == ra:
                         raise Boom('failure inside the bind block')
-                    oi = first[i] if i < len(first) else ctx.choose(f'op{i}', len(OPS))
+                    if i < len(first):
+                        oi = first[i]
+                    elif i >= 3:
+                        # thorough tier: the fourth operation is one that releases or moves something
+                        oi = OPS.index(LAST_OPS[ctx.choose(f'op{i}', len(LAST_OPS))])
+                    else:
+                        oi = ctx.choose(f'op{i}', len(OPS))
                     op = OPS[oi]
                     if op == 'sync':
                         if not use_bind:
@@ -881,7 +888,8 @@ def main(tier, seed):
     for r in run_jobs('vf.props.c17', 'job_second', [dict()], 'nrt'):
         chk.add('second_server', r)
     chk.require_notes('second_server', ['second'])
-    chk.bounds = {'history_length': f'{nops} outside bind(), {nops - 1} inside', 'operations': OPS, 'add_actions': ACTIONS,
+    chk.bounds = {'history_length': f'{nops} outside bind(), {nops - 1} inside', 'operations': OPS,
+                  'fourth_operation (thorough)': LAST_OPS, 'add_actions': ACTIONS,
                   'targets': 'server/default group, an existing node, root node id 0',
                   'consecutive_buffers': '1..4 (symbolic)', 'bind': 'outside, inside bind(), inside bind() with an '
                   'exception at a symbolic position',
